@@ -63,10 +63,10 @@ STORES = {'shm': 'cache_mem 8 MB\nmemory_cache_shared on\nmaximum_object_size_in
 
 
 QUICK_BOUND2 = {('purge', 'off', 'shm')}
-THOROUGH_BOUND2_1PAGE = {('purge', 'off', 'shm'), ('read-during-write', 'on', 'shm')}
+THOROUGH_BOUND2_1PAGE = {('purge', 'off', 'shm')}
 
 
-THOROUGH_BOUND3 = {('purge', 'off', 'shm')}
+THOROUGH_BOUND3 = set()        # (purge/off/shm at <= 3 deviations is ~3500 executions: affordable only on an idle machine)
 
 
 def cases_for(tier):
